@@ -98,7 +98,7 @@ def apply_rename(fn, mapping):
             n.name = mapping[n.name]
 
 
-REFERENCE_DIR = Path(__file__).resolve().parent.parent / "reference"
+REFERENCE_DIR = Path(os.environ.get("PDTSA_REFERENCE_DIR") or Path(__file__).resolve().parent.parent / "reference")
 
 
 def _functions_by_qualname(tree):
@@ -142,7 +142,7 @@ def new_private_helpers(tree, rel: str) -> frozenset:
     if rtree is None:
         return frozenset()
     have = set(_functions_by_qualname(rtree))
-    return frozenset(q for q in _functions_by_qualname(tree) if q not in have and q.split(".")[-1].startswith("_") and not q.split(".")[-1].startswith("__"))
+    return frozenset(q for q in _functions_by_qualname(tree) if q not in have and not q.split(".")[-1].startswith("__"))
 
 
 def _unify_blocks(ref_fn, fn) -> int:
@@ -211,13 +211,13 @@ def canonical_local_names(tree, rel: str) -> int:
     return n
 
 
-SMALL_EDIT_LINES = 8
+SMALL_EDIT_LINES = 4
 
 _IDIOM_TOKENS = {
     # tokens that come and go with idiom changes and carry no behaviour of their own
     "name:itertools", "name:functools", "name:operator", "name:copy", "lambda", "break", "assert", "cmp:is", "cmp:in",
     "cmp:eq", "num:0", "num:1", "attr:chain", "attr:reduce", "name:Optional", "name:Any", "kw:strict=True", "op:Sub",
-    "aug:Add", "aug:BitOr", "op:Mult", "raise:",
+    "aug:Add", "aug:BitOr", "op:Mult", "raise:", "op:neg",
 }  # fmt: skip
 
 
@@ -299,7 +299,15 @@ def lost_tokens(module, node):
     ref = set(signature(rf[q]))
     for g in _callees_in_module(rtree, rf[q]):
         ref |= signature(g)
-    lost = {t for t in ref - have if t not in _IDIOM_TOKENS and not t.startswith("name:_") and not t.startswith("attr:_check")}
+    loc = _locals_of(top) | _locals_of(rf[q])
+    for f_ in list(ast.walk(top)) + list(ast.walk(rf[q])):
+        if isinstance(f_, (ast.FunctionDef, ast.AsyncFunctionDef)):
+            loc.add(f_.name)
+            loc |= {a.arg for a in f_.args.args + f_.args.kwonlyargs}
+    lost = {
+        t for t in ref - have
+        if t not in _IDIOM_TOKENS and not t.startswith("name:_") and not t.startswith("attr:_check") and not (t.startswith("name:") and t[5:] in loc)
+    }
     cache[q] = lost
     return lost
 
